@@ -15,8 +15,8 @@ use serde_json::json;
 use std::collections::{BTreeMap, BTreeSet, HashMap};
 
 const LANGS: [&str; 5] = ["en", "es", "fr", "de", "it"];
-const ROWS: i32 = 6;
-const COLS: i32 = 7;
+const ROWS: i32 = 8;
+const COLS: i32 = 8;
 
 /// the pool of new names: valid tricky ones, look-alikes, non-ASCII, and invalid ones
 fn name_pool() -> Vec<String> {
@@ -86,6 +86,8 @@ fn gen_book(rng: &mut Rng, lang: &'static str, locale: &'static str, idx: usize)
     let ls = rng.below(ns as u64) as u32;
     let o3 = rng.below(ns as u64) as usize;
     names.push(("lname".to_string(), Some(ls), format!("{}!$B$1", quote(&sheets[o3]))));
+    let o4 = rng.below(ns as u64) as usize;
+    names.push(("lamname".to_string(), None, format!("LAMBDA(x,x+{}!$A$1)", quote(&sheets[o4]))));
     for s in 0..ns {
         let q = |k: usize| quote(&sheets[k]);
         let o = (s + 1 + rng.below(ns as u64 - 1) as usize) % ns;
@@ -118,7 +120,7 @@ fn gen_book(rng: &mut Rng, lang: &'static str, locale: &'static str, idx: usize)
             chosen.push(forms.remove(k));
         }
         let mut pos = vec![];
-        for c in 4..=COLS { for r in 1..=ROWS { pos.push((r, c)); } }
+        for c in 4..=5 { for r in 1..=6 { pos.push((r, c)); } }
         for (k, f) in chosen.into_iter().enumerate() {
             let (r, c) = pos[k];
             cells.push((s as u32, r, c, f));
@@ -126,6 +128,35 @@ fn gen_book(rng: &mut Rng, lang: &'static str, locale: &'static str, idx: usize)
         // second layer: reads formula cells of this and another sheet
         cells.push((s as u32, 5, 6, format!("=D1+{}!D2", q(o))));
         cells.push((s as u32, 6, 6, format!("={}(D1:E3)", sum)));
+        // EVERY node kind that has children, with a sheet-qualified reference beneath it (deterministic, every sheet of every book):
+        // LambdaDef body, LambdaCall lambda / args, Function / NamedFunction args, OpRange, OpConcatenate, OpSum, OpProduct, OpPower,
+        // Compare, Unary minus / percent, ImplicitIntersection, SpillRange; references to another sheet and to the sheet itself
+        let map = Function::Map.to_localized_name(lg);
+        let index = Function::Index.to_localized_name(lg);
+        let iff = Function::If.to_localized_name(lg);
+        let parents: Vec<String> = vec![
+            format!("=LAMBDA(x{sep}x+{}!A1)(5)", q(o)),
+            format!("=LAMBDA(x{sep}x+{}!A1*{}!B2)(5)", q(s), q(o)),
+            format!("=LAMBDA(x{sep}x*2)({}!A1)", q(o)),
+            format!("={sum}({map}({}!A1:A2{sep}LAMBDA(v{sep}v*{}!A2)))", q(o), q(o)),
+            format!("=LAMBDA(x{sep}LAMBDA(y{sep}y+{}!B1)(x))({}!A1)", q(o), q(s)),
+            "=lamname(2)".to_string(),
+            format!("=@{}!A1:A2", q(o)),
+            format!("={}!A1#", q(o)),
+            format!("={}!A1%", q(o)),
+            format!("=-{}!A1", q(o)),
+            format!("={}!A1^2+2^{}!A2", q(o), q(o)),
+            format!("={}!A1&\"x\"&{}!A2", q(o), q(s)),
+            format!("=({}!A1>{}!A2)+0", q(o), q(o)),
+            format!("={}!A1/{}!A2-{}!B1*3", q(o), q(o), q(s)),
+            format!("={sum}(A1:{index}({}!A1:B2{sep}2{sep}2))", q(o)),
+            format!("=foo({}!A1{sep}{}!A2)", q(o), q(s)),
+            format!("={iff}({}!A1>0{sep}{}!A2{sep}{}!B1)", q(o), q(o), q(s)),
+        ];
+        let mut ppos = vec![];
+        for r in [1, 2, 3, 4, 7, 8] { ppos.push((r, 6)); }
+        for c in 7..=COLS { for r in 1..=ROWS { ppos.push((r, c)); } }
+        for (k, f) in parents.into_iter().enumerate() { let (r, c) = ppos[k]; cells.push((s as u32, r, c, f)); }
     }
     Book { lang, locale, sheets, cells, names }
 }
